@@ -446,4 +446,128 @@ theorem sparse_factor_then_solve_exact (be : Backend) (st : KKTSettings K) (d : 
     exact ⟨res.1, res.2.1, res.2.2.1, res.2.2.2.1⟩
 end composite
 end blocks
+
+section llt
+variable {K : Type} [Field K] [LinearOrder K]
+
+/-- the square root the dense back end's Cholesky needs to be exact: `sqrt(x)² = x` for positive `x` -/
+def ExactSqrt (sqrtF : K → K) : Prop := ∀ x : K, 0 < x → sqrtF x * sqrtF x = x
+
+theorem lltSolve_correct (sqrtF : K → K) (hsq : ExactSqrt sqrtF) : ∀ (n : Nat) (A : Mat K n n) (b x : Vec K n),
+    (∀ i j : Fin n, A[i][j] = A[j][i]) → lltSolve sqrtF n A b = .ok x →
+    ∀ i : Fin n, ∑ j : Fin n, A[i][j] * x[j] = b[i]
+  | 0, _, _, _, _, _ => fun i => i.elim0
+  | n+1, A, b, x, hsym, h => by
+    unfold lltSolve at h
+    simp only at h
+    split at h
+    · simp at h
+    · rename_i hpos
+      have hpos' : 0 < A[(0 : Fin (n+1))][(0 : Fin (n+1))] := not_le.mp hpos
+      split at h
+      · simp at h
+      · rename_i x' hx'
+        simp only [Except.ok.injEq] at h
+        subst h
+        set l00 := sqrtF A[(0 : Fin (n+1))][(0 : Fin (n+1))] with hl00
+        have hsq0 : l00 * l00 = A[(0 : Fin (n+1))][(0 : Fin (n+1))] := hsq _ hpos'
+        have hne : l00 ≠ 0 := by
+          intro h0; rw [h0, mul_zero] at hsq0; exact absurd hsq0.symm (ne_of_gt hpos')
+        set l := colDiv A l00 with hl
+        have hsymS : ∀ i j : Fin n, (schur A l 1)[i][j] = (schur A l 1)[j][i] := by
+          intro i j
+          simp only [schur_get]
+          rw [hsym i.succ j.succ]; ring
+        have ih := lltSolve_correct sqrtF hsq n _ _ x' hsymS hx'
+        have hl' : ∀ k : Fin n, A[k.succ][(0 : Fin (n+1))] = l[k] * l00 := by
+          intro k; rw [hl, colDiv_get]; field_simp
+        have hT : sumFin n (fun k => l[k] * x'[k]) = ∑ k : Fin n, l[k] * x'[k] := sumFin_eq_sum n _
+        intro i
+        rw [Fin.sum_univ_succ]
+        simp only [consV_zero, consV_succ]
+        rw [hT]
+        refine Fin.cases ?_ (fun s => ?_) i
+        · have : ∀ k : Fin n, A[(0 : Fin (n+1))][k.succ] * x'[k] = l00 * (l[k] * x'[k]) := by
+            intro k; rw [hsym 0 k.succ, hl' k]; ring
+          simp only [this, ← Finset.mul_sum]
+          rw [← hsq0]
+          field_simp
+          ring
+        · have ihs := ih s
+          simp only [schur_get, Vector.getElem_ofFn] at ihs
+          have e1 : ∑ k : Fin n, A[s.succ][k.succ] * x'[k] =
+              (b[s.succ] - l[s] * (b[(0 : Fin (n+1))] / l00)) + l[s] * ∑ k : Fin n, l[k] * x'[k] := by
+            have : ∀ k : Fin n, A[s.succ][k.succ] * x'[k] = (A[s.succ][k.succ] - l[s] * 1 * l[k]) * x'[k] + l[s] * (l[k] * x'[k]) := by
+              intro k; ring
+            simp only [this, Finset.sum_add_distrib, ← Finset.mul_sum]
+            rw [ihs]
+            simp [Fin.getElem_fin, Vector.getElem_ofFn]
+          rw [e1, hl' s]
+          field_simp
+          ring
+
+
+/-- the staged Cholesky solve is the recursion `lltSolve` -/
+theorem solveLL_eq (sqrtF : K → K) : ∀ (n : Nat) (A L : Mat K n n) (b : Vec K n),
+    llt sqrtF n A = .ok L → lltSolve sqrtF n A b = .ok (solveLL n L b)
+  | 0, _, _, _, _ => by simp [lltSolve, solveLL]
+  | n+1, A, L, b, h => by
+    simp only [llt] at h
+    simp only [lltSolve]
+    split at h
+    · cases h
+    · rename_i hd
+      simp only [hd, if_false]
+      cases hrec : llt sqrtF n (schur A (colDiv A (sqrtF A[(0 : Fin (n+1))][(0 : Fin (n+1))])) 1) with
+      | error k => rw [hrec] at h; cases h
+      | ok L' =>
+        rw [hrec] at h
+        simp only [Except.ok.injEq] at h
+        subst h
+        rw [solveLL_eq sqrtF n _ L' _ hrec]
+        simp only [solveLL, col0_consL, minorM_consL, consL_00]
+
+/-- **the dense back end's inner solver is exact when `sqrt` is**: whenever `innerLLT` succeeds on a symmetric `(1,1)` block,
+    its solve map satisfies C13's `InnerExact` for the dense formulation -/
+theorem innerLLT_exact {n p m : Nat} (sqrtF : K → K) (hsq : ExactSqrt sqrtF) (kb : KBlocks K n p m)
+    (hxx : ∀ a b : Fin n, kb.xx[a][b] = kb.xx[b][a]) (slv : SolveFn K n p m)
+    (h : innerLLT sqrtF kb = some slv) : C13.InnerExact .dense kb slv := by
+  unfold innerLLT at h
+  cases hl : llt sqrtF n kb.xx with
+  | error k => rw [hl] at h; cases h
+  | ok L =>
+    rw [hl] at h
+    simp only [Option.some.injEq] at h
+    subst h
+    intro rx ry rz
+    have hs := solveLL_eq sqrtF n kb.xx L rx hl
+    have hc := lltSolve_correct sqrtF hsq n kb.xx rx _ hxx hs
+    refine ⟨fun j => ?_, fun hY => by simp [Backend.keepY] at hY, fun hZ => by simp [Backend.keepZ] at hZ⟩
+    simp only [Backend.keepY, Backend.keepZ, Bool.false_eq_true, if_false, add_zero]
+    exact hc j
+
+/-- **C13 + C14, dense back end**: factorise the coherent reduced `(1,1)` block with the model's own Cholesky and solve:
+    the step solves the full regularised Newton system whenever the factorisation succeeds, given only that `sqrt` is exact
+    (`sqrt(x)² = x` for `x > 0`; rounding of `sqrt`, like all rounding, is outside the model). -/
+theorem dense_factor_then_solve_exact {n p m : Nat} (sqrtF : K → K) (hsq : ExactSqrt sqrtF) (st : KKTSettings K)
+    (d : Data K n p m) (k : KKT K n p m)
+    (r old out : Step K n p m) (hcoh : C13.Coherent .dense d k) (hin : C13.Interior d k)
+    (h : KKT.solve .dense st d (KKT.regFactor .dense st d k false (innerLLT sqrtF)) r old false = some out) :
+    let back := KKT.multiply d k out old
+    (∀ j : Fin n, back.x[j] = r.x[j]) ∧ (∀ t : Fin p, back.y[t] = r.y[t]) ∧ (∀ t : Fin m, back.z[t] = r.z[t]) ∧
+    (∀ t : Fin m, back.s[t] = r.s[t]) := by
+  cases hs : innerLLT sqrtF k.k with
+  | none =>
+    have : (KKT.regFactor .dense st d k false (innerLLT sqrtF)).fsol = none := by simp [KKT.regFactor, hs]
+    unfold KKT.solve at h
+    simp [this] at h
+  | some slv =>
+    have hf : (KKT.regFactor .dense st d k false (innerLLT sqrtF)).fsol = some slv := by simp [KKT.regFactor, hs]
+    have hcoh' : C13.Coherent .dense d (KKT.regFactor .dense st d k false (innerLLT sqrtF)) := ⟨hcoh.xx, hcoh.xy, hcoh.yy, hcoh.xz, hcoh.zz⟩
+    have hin' : C13.Interior d (KKT.regFactor .dense st d k false (innerLLT sqrtF)) :=
+      ⟨hin.delta, hin.zinv, hin.s, hin.w, hin.zinv_lb, hin.s_lb, hin.w_lb, hin.zinv_ub, hin.s_ub, hin.w_ub⟩
+    have hex := innerLLT_exact sqrtF hsq k.k (coherent_xx_symm .dense d k hcoh) slv hs
+    have res := C13.solve_solves_full_system .dense st d (KKT.regFactor .dense st d k false (innerLLT sqrtF)) r old out slv hf hcoh' hex hin' h
+    exact ⟨res.1, res.2.1, res.2.2.1, res.2.2.2.1⟩
+end llt
 end Piqp.C14
